@@ -33,7 +33,7 @@ ASSUMPTIONS = [
     'suspension points are those of user code (methods, middlewares, error handlers); the library itself only awaits them',
     'in-flight = between the entry of the outermost middleware for an element and its exit (logical time from the trace)',
 ]
-SHARDS = {'quick': 4, 'thorough': 16}
+SHARDS = {'quick': 8, 'thorough': 16}
 TIMEOUT = {'quick': 600, 'thorough': 3000}
 ANCHORS = [
     ('pjrpc/server/dispatcher.py', 'AsyncDispatcher.dispatch'),
@@ -44,7 +44,8 @@ ANCHORS = [
 FLOORS = {'*': {'schedules': 12000, 'shapes': 1000, 'shapes-with>=2-completion-orders': 80, 'last-element-finishes-first': 50,
                 'max-in-flight>=2:concurrent': 200, 'sequential-mode-shapes': 60, 'points:method': 500, 'points:middleware': 500,
                 'points:error-handler': 200, 'profile:notification': 100, 'profile:plain-method': 100, 'profile:rpc-error': 100,
-                'profile:exception': 100, 'profile:plain-method-raising-TypeError': 50, 'profile:view-method': 50, 'elements:4': 2, 'plain-callable-middleware': 100}}
+                'profile:exception': 100, 'profile:plain-method-raising-TypeError': 50, 'profile:view-method': 50, 'elements:4': 2, 'plain-callable-middleware': 100, 'elements:1': 20,
+                'dispatcher-from-the-aiohttp-integration': 300}}
 
 # (kind, outcome, points)
 PROFILES = [
@@ -64,7 +65,20 @@ def rpc_code(i):
     return {1: -32600, 3: -32700}.get(i, 3000 + i)
 
 
-def build(shape, concurrent, plain_mw=False):
+def make_dispatcher(via, **kwargs):
+    """the AsyncDispatcher under test, built directly or handed out by the aiohttp integration (same keyword arguments)"""
+    if via == 'aiohttp-app':
+        import aiohttp.web
+        from pjrpc.server.integration import aiohttp as integ
+        return integ.Application('/rpc', app=aiohttp.web.Application(), **kwargs).dispatcher
+    if via == 'aiohttp-endpoint':
+        import aiohttp.web
+        from pjrpc.server.integration import aiohttp as integ
+        return integ.Application('/rpc', app=aiohttp.web.Application()).add_endpoint('/sub', **kwargs)
+    return pjrpc.server.AsyncDispatcher(**kwargs)
+
+
+def build(shape, concurrent, plain_mw=False, via=None):
     points = {i: set(PROFILES[p][2]) for i, p in enumerate(shape)}
 
     def mw_plain(request, context, handler):
@@ -113,8 +127,7 @@ def build(shape, concurrent, plain_mw=False):
     for i, p in enumerate(shape):
         if PROFILES[p][1] == 'rpc':
             handlers[rpc_code(i)] = [code_handler(rpc_code(i))]
-    disp = pjrpc.server.AsyncDispatcher(middlewares=[mw_plain if plain_mw else mw], error_handlers=handlers,
-                                        concurrent_batch=concurrent)
+    disp = make_dispatcher(via, middlewares=[mw_plain if plain_mw else mw], error_handlers=handlers, concurrent_batch=concurrent)
 
     def outcome(tok, what):
         if what == 'ok':
@@ -192,8 +205,12 @@ def same_response(want, got):
     return True
 
 
-def run_shape(ctx, shape, concurrent, plain_mw=False):
-    disp, text, want = build(shape, concurrent, plain_mw)
+def run_shape(ctx, shape, concurrent, plain_mw=False, via=None):
+    disp, text, want = build(shape, concurrent, plain_mw, via)
+    if via:
+        ctx.hit('dispatcher-from-the-aiohttp-integration')
+    if len(shape) == 1:
+        ctx.hit('elements:1')
     if plain_mw:
         ctx.hit('plain-callable-middleware')
     n = len(shape)
@@ -247,7 +264,7 @@ def run_shape(ctx, shape, concurrent, plain_mw=False):
                     max_live = max(max_live, len(live))
                 elif e[0] == 'finish':
                     live.discard(e[1])
-            cls = (tuple(shape), concurrent, plain_mw, finish_order)
+            cls = (tuple(shape), concurrent, plain_mw, via, finish_order)
             wit = dict(shape=shape_desc, concurrent_batch=concurrent, schedule=s.taken, request=text, returned=out,
                        trace=[list(e) for e in trace][:80], executions=list(CUR['exec']))
             if problem is None:
@@ -310,7 +327,7 @@ def gen(ctx):
     rng = ctx.rng
     full = ctx.thorough
     P = range(len(PROFILES))
-    shapes = [list(s) for s in itertools.product(P, repeat=2)]
+    shapes = [[p] for p in P] + [list(s) for s in itertools.product(P, repeat=2)]
     three = [list(s) for s in itertools.product(P, repeat=3)]
     four = [list(s) for s in itertools.product(P, repeat=4)]
     if full:
@@ -330,6 +347,10 @@ def gen(ctx):
         if len(shape) <= 2 or rng.random() < (0.5 if full else 0.15):
             yield 'shape', {'shape': shape, 'concurrent': False, 'plain_mw': True}
             yield 'shape', {'shape': shape, 'concurrent': True, 'plain_mw': True}
+        if len(shape) == 2 or rng.random() < (0.3 if full else 0.08):
+            for via in ('aiohttp-app', 'aiohttp-endpoint'):
+                yield 'shape', {'shape': shape, 'concurrent': False, 'via': via}
+                yield 'shape', {'shape': shape, 'concurrent': True, 'via': via}
 
 
 KINDS = {'shape': run_shape}
